@@ -1,6 +1,6 @@
 (* Proofs for M-SERVER: the model's trace satisfies mon_C09 for every event list, and mon_C07 for
    every event list in which no HTTP/2-only server meets a client that never completes the preface
-   (known finding D15).  Method: a relation [Rel] between the model state and the monitors'
+   (known finding D18).  Method: a relation [Rel] between the model state and the monitors'
    counters over the trace emitted so far, preserved by every micro step of the model; the checks
    of the monitors follow from [Rel] (safety) and from [Quiet], which every settle establishes
    (liveness at the quiescent points). *)
@@ -126,7 +126,7 @@ Record Rel (g : cfg) (q : list qent) (s : state) (m : ms) : Prop := mkRel {
             In (QLive c) q \/ srv_done s = true \/ s_lost s = true
 }.
 
-(* an HTTP/2-only server never meets a client that does not complete the preface (D15) *)
+(* an HTTP/2-only server never meets a client that does not complete the preface (D18) *)
 Definition NoSilentK (g : cfg) (s : state) : Prop :=
   is_h2proto (g_proto g) = true ->
   forall c x, nth_error (s_conns s) c = Some x ->
@@ -1244,7 +1244,7 @@ Proof.
   - rewrite Hm. constructor; cbn; auto.
     + intros c x Hn. eapply rc_cause_any. apply g_conns0. exact Hn.
     + intros _ c x Hn Hcut. specialize (g_conns0 c x Hn). rc_start g_conns0.
-      unfold idle_cm. rewrite Rfault. destruct (c_faulty x) eqn:Hfa; cbn; [now rewrite !andb_false_r |].
+      rewrite g_fired0, Hnf. unfold idle_cm. rewrite Rfault. destruct (c_faulty x) eqn:Hfa; cbn; [now rewrite !andb_false_r |].
       specialize (Rbegun eq_refl). specialize (Rresp eq_refl). rewrite Hcut in Rbegun. cbn in Rbegun.
       destruct (Nat.eqb_spec (m_begun (k_conns (mstate s) c)) (m_resp (k_conns (mstate s) c))); [lia |].
       now rewrite !andb_false_r.
@@ -1301,7 +1301,7 @@ Proof.
 Qed.
 
 (* the hypothesis under which C07 is proved: an HTTP/2-only server never meets a client that
-   does not complete the HTTP/2 preface (known finding D15) *)
+   does not complete the HTTP/2 preface (known finding D18) *)
 Definition h2_preface_done (g : cfg) (evs : list ev) : Prop := Forall (allowed g) evs.
 
 Theorem model_mon_C09 : forall g evs, mon_C09 (trace (run g evs)) = true.
@@ -1601,7 +1601,8 @@ Lemma causes_run : forall g evs s,
   existsb is_cause_ev evs = false -> causes (run_from g s evs) = causes s.
 Proof.
   intros g evs. induction evs as [|e evs IH]; cbn; intros s H; auto.
-  apply orb_false_iff in H. destruct H as [H1 H2]. rewrite IH by auto. now apply causes_step.
+  apply orb_false_iff in H. destruct H as [H1 H2].
+  change (causes (run_from g (step g s e) evs) = causes s). rewrite IH by auto. now apply causes_step.
 Qed.
 
 Lemma existsb_filter_nil : forall (A : Type) (p : A -> bool) l, filter p l = [] -> existsb p l = false.
@@ -1652,4 +1653,46 @@ Proof.
   intros g evs a b c A B C Ht. eapply c09_others_served_proof; eauto.
   assert (H := no_cause_echo g evs (no_cause_events _ A B C)). rewrite Ht in H.
   eapply existsb_app_false; eauto.
+Qed.
+
+(* ------------------------------------------------------------------ C07: idle connections *)
+Lemma snap_track : forall m o c, k_fired m = true -> k_snap (track m o) c = k_snap m c.
+Proof. intros m o c H. destruct o; cbn; auto. now rewrite H. Qed.
+
+Lemma idle_no_handler : forall c tr m,
+  k_fired m = true -> idle_cm (k_snap m c) = true -> mon_from chk07 m tr = true ->
+  ~ In (OHandler c) tr.
+Proof.
+  intros c. induction tr as [|o tr IH]; intros m Hf Hi H; [intros [] |].
+  cbn in H. apply andb_prop in H. destruct H as [H0 H].
+  intros [-> | Hin].
+  - cbn in H0. rewrite Hf, Hi in H0. discriminate.
+  - apply (IH (track m o)); auto.
+    + now apply fired_track.
+    + now rewrite snap_track.
+Qed.
+
+Theorem c07_inflight_complete_proof : forall g evs,
+  h2_preface_done g evs ->
+  (* at every quiescent point after the signal: a connection for whose requests the environment
+     has nothing left to do is closed, and every request whose handler had been invoked before
+     the signal got its complete response *)
+  (forall a b c, trace (run g evs) = a ++ OQuiet :: b -> In OSignal a -> c < k_n (tracks ms0 a) ->
+     settled07 (k_conns (tracks ms0 a) c))
+  (* a connection that was idle when the (first) signal fired never sees its handler again *)
+  /\ (forall tr1 tr2 c, trace (run g evs) = tr1 ++ OSignal :: tr2 -> ~ In OSignal tr1 ->
+        idle_cm (k_conns (tracks ms0 tr1) c) = true -> ~ In (OHandler c) tr2).
+Proof.
+  intros g evs Hh. split.
+  - intros a b c. apply (c07_every_driver_told_once_proof g evs c Hh).
+  - intros tr1 tr2 c Ht Hn Hi. assert (M := model_mon_C07 g evs Hh). unfold mon_C07 in M. rewrite Ht in M.
+    apply mon_from_split in M. destruct M as (_ & _ & M).
+    eapply idle_no_handler; [| | exact M]; [reflexivity |].
+    cbn. destruct (k_fired (tracks ms0 tr1)) eqn:Hf; auto.
+    exfalso. assert (Hc : k_cause (tracks ms0 tr1) = true \/ True) by auto.
+    clear Hc. revert Hf Hn. clear. intros Hf Hn.
+    assert (G : forall tr m, k_fired (tracks m tr) = true -> k_fired m = true \/ In OSignal tr).
+    { induction tr as [|o tr IH]; cbn; intros m H; auto.
+      destruct (IH _ H) as [H1 | H1]; auto. destruct o; cbn in *; auto. }
+    destruct (G _ _ Hf) as [H | H]; [discriminate | contradiction].
 Qed.
